@@ -342,6 +342,55 @@ Section Rec.
   Definition accs_to (l : list acc) : list adict := map acc_to_dict l.
 End Rec.
 
+
+(* ---------------------------------------------------------------- executable well-formedness
+   (the hypotheses of the round-trip theorems as a boolean check; Proofs/PersistRec.v shows it
+   sound; the correspondence driver evaluates it on the objects built from every generated map) *)
+Definition nn (o : option jv) : bool := match o with Some JNull => false | _ => true end.
+
+Fixpoint distinct_iids (ss : list svc) : bool :=
+  match ss with
+  | [] => true
+  | s :: r => negb (has_iid (s_iid s) r) && distinct_iids r
+  end.
+
+Section WfDecDefs.
+  Variable norm : bytes -> option bytes.
+  Variable tbl : bytes -> ctab.
+  Definition norm_fixb (t : bytes) : bool :=
+    match norm t with Some t' => bytes_eqb t' t | None => false end.
+  Definition is_none {A} (o : option A) : bool := match o with None => true | Some _ => false end.
+  Definition tab_okb (field tabv : option jv) : bool := match field with None => is_none tabv | Some _ => true end.
+  Definition is_jbool (v : jv) : bool := match v with JBool _ => true | _ => false end.
+
+  Definition value_okb (c : chr) : bool :=
+    match c_value c with
+    | Some x =>
+        has_pr (c_perms c) && nn (Some x) &&
+        (if fmt_is a_bool (c_format c) then is_jbool x else true) &&
+        is_ok (initial_value (c_perms c) (c_format c) (c_valid c) (c_min c) (c_max c))
+    | None =>
+        match initial_value (c_perms c) (c_format c) (c_valid c) (c_min c) (c_max c) with
+        | Ok None => true
+        | _ => false
+        end
+    end.
+
+  Definition wf_chrb (c : chr) : bool :=
+    norm_fixb (c_type c) && nn (c_format c) && nn (c_min c) && nn (c_max c) && nn (c_step c) &&
+    nn (c_valid c) && nn (c_handle c) && nn (c_bcast c) && nn (c_disc c) &&
+    tab_okb (c_min c) (t_min (tbl (c_type c))) && tab_okb (c_max c) (t_max (tbl (c_type c))) &&
+    tab_okb (c_step c) (t_step (tbl (c_type c))) && value_okb c.
+
+  Definition is_idb (v : jv) : bool := match v with JInt z => negb (Z.eqb z 0) | _ => false end.
+  Definition wf_svcb (all : list svc) (s : svc) : bool :=
+    is_idb (s_iid s) && norm_fixb (s_type s) && forallb wf_chrb (s_chars s) &&
+    forallb truthy (s_linked s) && forallb (fun l => has_iid l all) (s_linked s).
+  Definition wf_accb (a : acc) : bool :=
+    forallb (wf_svcb (a_services a)) (a_services a) && distinct_iids (a_services a).
+
+End WfDecDefs.
+
 (* ---------------------------------------------------------------- broadcast key: bytes.hex / fromhex *)
 Definition hex_digit (n : N) : N := if N.ltb n 10 then (48 + n)%N else (87 + n)%N.
 Definition hex_val (c : N) : option N :=
